@@ -1,4 +1,4 @@
-import JobShopModel.Events
+import JobShopModel.World
 /-!
 # Line-protocol driver for the executable model
 
@@ -8,10 +8,7 @@ output streams.  Grammar: see `/verif/DESIGN.md` §3.5 and `harness/protocol.md`
 -/
 open JS
 
-structure World where
-  cfg : Cfg := { I := [] }
-  s : State := init []
-deriving Inhabited
+def emptyWorld : World := World.init { I := [] }
 
 def toks (line : String) : List String := (line.splitOn " ").filter (· ≠ "")
 
@@ -100,8 +97,44 @@ def fmtAnswer (I : Instance) : Answer → String
 def query (w : World) (ts : List String) : World × String :=
   if ts == ["unsched_observer"] then (w, lst (fmtRefs w.cfg.I (unscheduledPure w.cfg.I w.s))) else
   match parseQuery w.cfg.I ts with
-  | some q => let r := ask w.cfg w.s q; ({ w with s := r.2 }, fmtAnswer w.cfg.I r.1)
+  | some q => let r := w.ask q; (r.1, fmtAnswer w.cfg.I r.2)
   | none => (w, "bad-op")
+
+def parseKind : String → Option ObsKind
+  | "history" => some .history
+  | "unscheduled" => some .unscheduled
+  | "makespan_reward" => some .makespanReward
+  | "idle_reward" => some .idleReward
+  | "recorder" => some .recorder
+  | _ => none
+
+def fmtSnapshot (I : Instance) (sn : Snapshot) : String :=
+  let sch := " | ".intercalate (sn.sched.map fun ms => " ".intercalate (ms.map (fmtSOp I)))
+  s!"<{sch} ; {fmtInts sn.machNext} ; {fmtNats sn.jobIdx} ; {fmtInts sn.jobNext} ; {sn.currentTime} ; {fmtRefs I sn.unscheduled}>"
+
+def fmtNotif (I : Instance) : Notif → String
+  | .update x sn => s!"U {fmtSOp I x} {fmtSnapshot I sn}"
+  | .reset sn => s!"R {fmtSnapshot I sn}"
+
+def fmtObs (I : Instance) (id : Nat) (o : Obs) : String :=
+  match o.kind with
+  | .history => s!"{id}:history " ++ " ".intercalate (o.hist.map (fmtSOp I))
+  | .unscheduled => s!"{id}:unscheduled " ++ " ".intercalate (o.deques.map fun d => lst (fmtRefs I d))
+  | .makespanReward => s!"{id}:makespan_reward {fmtInts o.rewards} cur {o.curMakespan}"
+  | .idleReward => s!"{id}:idle_reward {fmtInts o.rewards}"
+  | .recorder => s!"{id}:recorder " ++ " ".intercalate (o.log.map (fmtNotif I))
+
+def worldSnapshot (w : World) : String :=
+  let I := w.cfg.I
+  let obs := (List.range w.heap.length).map fun id => match w.heap[id]? with
+    | some o => fmtObs I id o
+    | none => ""
+  s!"subs {fmtNats w.subs} || " ++ " || ".intercalate obs
+
+def fmtTrace (w : World) : String :=
+  " ".intercalate (w.trace.map fun (id, n) => match n with
+    | .update x _ => s!"{id}:U{opId w.cfg.I (x.job, x.pos)}"
+    | .reset _ => s!"{id}:R")
 
 def step (w : World) (line : String) : World × String :=
   match toks line with
@@ -109,7 +142,7 @@ def step (w : World) (line : String) : World × String :=
     match n.toNat?, ints? rest with
     | some n, some xs =>
       (match parseJobs n xs with
-       | some I => ({ w with cfg := { w.cfg with I := I }, s := init I },
+       | some I => (World.init { w.cfg with I := I },
                     s!"ok {numOps I} {numMachines I} {validB I}")
        | none => (w, "bad-op"))
     | _, _ => (w, "bad-op")
@@ -124,15 +157,37 @@ def step (w : World) (line : String) : World × String :=
       let mm : Option (Option Int) := if m == "none" then some none else m.toInt?.map some
       (match mm with
        | some mo =>
-         (match dispatchReq w.cfg.I w.s j p mo with
-          | .ok s' =>
-            let st := match (s'.sched.flatten.find? fun x => x.job == j && x.pos == p) with
+         (match w.dispatch j p mo with
+          | (w', .ok) =>
+            let st := match (w'.s.sched.flatten.find? fun x => x.job == j && x.pos == p) with
               | some x => x.start | none => -1
-            ({ w with s := s' }, s!"ok {st}")
-          | .error _ => (w, "raise"))
+            (w', s!"ok {st}")
+          | (w', _) => (w', "raise"))
        | none => (w, "bad-op"))
     | _, _ => (w, "bad-op")
-  | ["reset"] => ({ w with s := reset w.cfg.I w.s }, "ok")
+  | ["reset"] => (w.reset, "ok")
+  | ["obs", k] =>
+    match parseKind k with
+    | some kind => (match w.construct kind with
+        | (w', some id) => (w', toString id)
+        | (w', none) => (w', "raise"))
+    | none => (w, "bad-op")
+  | ["cog", k] =>
+    match parseKind k with
+    | some kind => (match w.createOrGet kind with
+        | (w', some id) => (w', toString id)
+        | (w', none) => (w', "raise"))
+    | none => (w, "bad-op")
+  | ["unsub", id] =>
+    match id.toNat? with
+    | some id => (match w.unsubscribe id with | (w', true) => (w', "ok") | (w', false) => (w', "raise"))
+    | none => (w, "bad-op")
+  | ["resub", id] =>
+    match id.toNat? with
+    | some id => (match w.resubscribe id with | (w', true) => (w', "ok") | (w', false) => (w', "raise"))
+    | none => (w, "bad-op")
+  | ["wsnap"] => (w, worldSnapshot w)
+  | ["trace"] => (w, lst (fmtTrace w))
   | ["snap"] => (w, snapshot w)
   | "q" :: ts => query w ts
   | "flt" :: rest =>
@@ -150,7 +205,7 @@ partial def loop (h : IO.FS.Stream) (out : IO.FS.Stream) (w : World) : IO Unit :
   let l := line.trimAscii.toString
   if l == "new" then
     out.putStrLn "ok"
-    loop h out {}
+    loop h out emptyWorld
   else
     let (w', o) := step w l
     out.putStrLn o
@@ -159,4 +214,4 @@ partial def loop (h : IO.FS.Stream) (out : IO.FS.Stream) (w : World) : IO Unit :
 def main : IO Unit := do
   let stdin ← IO.getStdin
   let stdout ← IO.getStdout
-  loop stdin stdout {}
+  loop stdin stdout emptyWorld
